@@ -131,3 +131,47 @@ pub fn trace_of_lines(lines: &[String]) -> Trace {
 pub fn model(bytes: &[u8]) -> Trace {
     trace_of_lines(&lines(bytes))
 }
+
+/// Indices (into `lines`) of the lines that are dispatched to a section parser, with
+/// their section, in order — the same walk as `trace_of_lines`, keeping positions.
+pub fn dispatched_indices(lines: &[String]) -> Vec<(usize, u8)> {
+    let mut i = 0;
+    let mut reuse = false;
+    while i < lines.len() {
+        let l = &lines[i];
+        i += 1;
+        if l.is_empty() {
+            continue;
+        }
+        if !(l.starts_with(PREFIX) && parse_version_number(l).is_some()) {
+            reuse = true;
+        }
+        break;
+    }
+    if reuse {
+        i -= 1;
+    }
+    let mut cur = None;
+    while i < lines.len() {
+        let l = &lines[i];
+        i += 1;
+        if let Some(s) = header_of(l) {
+            cur = Some(s);
+            break;
+        }
+    }
+    let mut out = Vec::new();
+    let Some(mut cur) = cur else { return out };
+    while i < lines.len() {
+        let l = &lines[i];
+        if !is_skipped(l) {
+            if let Some(s) = header_of(l) {
+                cur = s;
+            } else {
+                out.push((i, cur));
+            }
+        }
+        i += 1;
+    }
+    out
+}
